@@ -505,7 +505,27 @@ func (p *Parser) findFieldInSelect(selStmt *SelectStmt, fieldName string, pos in
 		return nil, NewSyntaxError(pos, "Cannot find field %s in select statement", fieldName)
 	}
 	fexpr := selStmt.Fields[foundIdx]
-	switch fexpr.ReturnType() {
+	// A field that is just the name of another field has that field's type
+	// (the names are resolved only after the whole statement is parsed)
+	typed := fexpr
+	for n := 0; n < len(selStmt.Fields); n++ {
+		name, isName := typed.(*NameExpr)
+		if !isName {
+			break
+		}
+		idx := -1
+		for i, fname := range selStmt.FieldNames {
+			if fname == name.Data {
+				idx = i
+				break
+			}
+		}
+		if idx < 0 {
+			break
+		}
+		typed = selStmt.Fields[idx]
+	}
+	switch typed.ReturnType() {
 	case TSTR, TNUMBER, TBOOL:
 		break
 	default:
